@@ -84,6 +84,19 @@ def forward_programs():
                                    LET("a", {"k": "callv", "fe": V("l"), "args": [I(3)]}), f_def],
         "fw_alias_called_early": [fwd, g_def, LET("m", V("g")), LET("a", {"k": "callv", "fe": V("m"), "args": [I(3)]}), f_def],
         "fw_alias_called_late": [fwd, g_def, LET("m", V("g")), f_def, LET("a", {"k": "callv", "fe": V("m"), "args": [I(3)]})],
+        # the forward is used two scopes below its declaration: the requirement travels up through the inner function
+        "fw_nested_early": [fwd, FN("g", ps1, "int", C("bar", [V("n")]), decls=[FN("bar", [P("k", "int")], "int", OP("mul", C("f", [V("k")]), I(2)))]),
+                            LET("a", C("g", [I(2)])), f_def],
+        "fw_nested_late": [fwd, FN("g", ps1, "int", C("bar", [V("n")]), decls=[FN("bar", [P("k", "int")], "int", OP("mul", C("f", [V("k")]), I(2)))]),
+                           f_def, LET("a", C("g", [I(2)]))],
+        "fw_nested2_early": [fwd, FN("g", ps1, "int", C("mid", [V("n")]),
+                                     decls=[FN("mid", [P("j", "int")], "int", C("bar", [V("j")]), decls=[FN("bar", [P("k", "int")], "int", C("f", [V("k")]))])]),
+                             LET("a", C("g", [I(2)])), f_def],
+        "fw_nested_guarded_early": [fwd, FN("g", ps1, "int", C("if", [OP("lt", V("n"), I(0)), C("bar", [V("n")]), I(3)]),
+                                            decls=[FN("bar", [P("k", "int")], "int", C("f", [V("k")]))]),
+                                    LET("a", C("g", [I(2)])), f_def],
+        # a definition with the same parameters but another return type is a different function: it does not fulfil the forward
+        "fw_wrong_return": [fwd, g_def, FN("f", ps1, "str", {"k": "lit", "ty": "str", "v": "s"}), LET("a", C("g", [I(2)]))],
         "fw_unrelated_between": [fwd, g_def, LET("z", I(7)), FN("u", ps1, "int", OP("add", V("n"), V("z"))), LET("y", C("u", [I(1)])), f_def, LET("a", C("g", [V("y")]))],
     }
     out = []
